@@ -26,17 +26,25 @@ import (
 // net.Pipe, a scripted raw-frame client on the other, inside a synctest bubble;
 // synctest.Wait() after every op gives a quiescent point.
 //
-//	cfg [maxStreams, maxHeaderListSize, tiny]   tiny=1: the client advertises
+//	cfg [maxStreams, maxHeaderListSize, tiny, zw]   tiny=1: the client advertises
 //	                                            SETTINGS_MAX_HEADER_LIST_SIZE=16
+//	                                            zw=1 (optional, default 0): the client advertises
+//	                                            SETTINGS_INITIAL_WINDOW_SIZE=0, so every response
+//	                                            message waits in loopy for a WINDOW_UPDATE
 //	op [1, sid, endStream, nf, (kind, vlen, v...)*nf]   HEADERS (+END_HEADERS)
 //	op [2, sid]        RST_STREAM(sid, CANCEL) from the client
 //	op [3, sid]        server application finishes stream sid (WriteStatus OK) if it is active
 //	op [4, sid, end]   empty DATA frame
 //	op [5, variant]    malformed frame that is a connection error for the framer
 //	op [6, sid]        WINDOW_UPDATE(sid, 0): a stream error of the framer
+//	op [9, sid, n]     server application writes a 5+n byte message on stream sid and finishes it
+//	                   (Write, then WriteStatus OK) if it is active
+//	op [10, sid, inc]  WINDOW_UPDATE(sid, inc), inc > 0: flow-control credit
 //	(ops [7, 0] Drain, [8, 0] PING ack of the drain ping, [12, ms] sleep are used by the C14 driver)
 //	obs [nActive, handled, maxStreamID, events...]   events of this op, each
-//	    [1, sid, httpStatus, grpcStatus]  HEADERS from the server (always END_STREAM)
+//	    [1, sid, httpStatus, grpcStatus]  HEADERS from the server (httpStatus + 1000 when the frame
+//	                                      does not carry END_STREAM; -1 = field absent); DATA frames
+//	                                      are not recorded
 //	    [3, sid, code, 0]                 RST_STREAM from the server
 //	    [7, lastID, code, 0]              GOAWAY from the server
 //	    [6, 0, 0, 0]                      PING from the server
@@ -119,6 +127,7 @@ func vServerHeadersRun(cfg []int64, ops [][]int64) (obs [][]int64, nt bool, tags
 	if len(cfg) >= 3 {
 		maxStreams, limit, tiny = uint32(cfg[0]), uint32(cfg[1]), cfg[2] == 1
 	}
+	zw := len(cfg) >= 4 && cfg[3] == 1
 	cconn, sconn := net.Pipe()
 	cli := &vServerHeadersCli{}
 	var panicMu sync.Mutex
@@ -160,11 +169,14 @@ func vServerHeadersRun(cfg []int64, ops [][]int64) (obs [][]int64, nt bool, tags
 	}
 	go cli.read(cconn)
 	wbuf.Write(clientPreface)
+	var settings []http2.Setting
 	if tiny {
-		cfr.WriteSettings(http2.Setting{ID: http2.SettingMaxHeaderListSize, Val: 16})
-	} else {
-		cfr.WriteSettings()
+		settings = append(settings, http2.Setting{ID: http2.SettingMaxHeaderListSize, Val: 16})
 	}
+	if zw {
+		settings = append(settings, http2.Setting{ID: http2.SettingInitialWindowSize, Val: 0})
+	}
+	cfr.WriteSettings(settings...)
 	flush()
 	r := <-rc
 	if r.err != nil || r.st == nil {
@@ -300,6 +312,22 @@ func vServerHeadersRun(cfg []int64, ops [][]int64) (obs [][]int64, nt bool, tags
 			}
 		case 6:
 			rawFrame(8, 0, uint32(op[1]), 4, []byte{0, 0, 0, 0})
+		case 9:
+			if len(op) < 3 || op[2] < 0 || op[2] > 1000 {
+				break
+			}
+			t.mu.Lock()
+			s := t.activeStreams[uint32(op[1])]
+			t.mu.Unlock()
+			if s != nil {
+				s.Write(make([]byte, 5), mem.BufferSlice{mem.SliceBuffer(make([]byte, op[2]))}, &WriteOptions{})
+				s.WriteStatus(status.New(codes.OK, ""))
+			}
+		case 10:
+			if len(op) < 3 || op[2] < 1 || op[2] > 2147483647 {
+				break
+			}
+			cfr.WriteWindowUpdate(uint32(op[1]), uint32(op[2]))
 		case 7: // used by the C14 driver only: graceful drain
 			t.Drain("verif")
 		case 8: // C14: the client acknowledges the server's GOAWAY ping
@@ -345,6 +373,9 @@ func vServerHeadersRun(cfg []int64, ops [][]int64) (obs [][]int64, nt bool, tags
 	panicMu.Unlock()
 	if p != nil {
 		panic(fmt.Sprintf("vServerHeaders: panic inside the server transport: %v", p))
+	}
+	if zw {
+		tagset["zero-window"] = true
 	}
 	for k := range tagset {
 		tags = append(tags, k)
@@ -513,7 +544,7 @@ func vServerHeadersPick(r *vRand, xs ...string) string {
 }
 
 func vServerHeadersGen(r *vRand, tier string, idx int) ([]int64, [][]int64) {
-	cfg := []int64{r.PickI64(0, 1, 2, 2, 3, 5), r.PickI64(256, 300, 400, 4096), vB(r.Chance(12))}
+	cfg := []int64{r.PickI64(0, 1, 2, 2, 3, 5), r.PickI64(256, 300, 400, 4096), vB(r.Chance(12)), vB(r.Chance(35))}
 	var ops [][]int64
 	F := vServerHeadersField
 	good := func(sid int64, extra ...[]int64) []int64 {
@@ -568,6 +599,27 @@ func vServerHeadersGen(r *vRand, tier string, idx int) ([]int64, [][]int64) {
 			ops = append(ops, []int64{2, 3})
 		}
 		ops = append(ops, good(3), good(5))
+	case 15:
+		// MaxConcurrentStreams=1, the client's window is 0: stream 1 is served, its handler writes
+		// 15 bytes and returns; the response waits in loopy, the stream is still open on the wire:
+		// stream 3 must be refused; 14 bytes of window are not enough (stream 5 refused), one more
+		// byte flushes stream 1 (trailers + RST_STREAM) and stream 7 is served.  The same again with a
+		// half-closed stream (no RST_STREAM after the trailers) and a window that opens at once.
+		cfg = []int64{1, 4096, 0, 1}
+		ops = append(ops, good(1), []int64{9, 1, 10}, good(3), []int64{10, 1, 14}, good(5), []int64{10, 1, 1}, good(7),
+			[]int64{4, 7, 1}, []int64{9, 7, 0}, good(9), []int64{3, 7}, []int64{9, 7, 3}, good(11), []int64{10, 7, 2147483647},
+			good(13), []int64{10, 13, 100}, good(15), []int64{9, 13, 95}, good(17), []int64{3, 17}, good(19))
+	case 16:
+		// two slots; blocked streams are freed by a client RST_STREAM, a framer stream error, not by
+		// DATA; a trailers-only finish is not flow-controlled
+		cfg = []int64{2, 4096, 0, 1}
+		ops = append(ops, good(1), good(3), []int64{9, 1, 1}, []int64{9, 3, 100}, good(5), []int64{4, 1, 1}, good(7),
+			[]int64{2, 1}, good(9), []int64{6, 3}, good(11), []int64{3, 9}, good(13), []int64{9, 13, 7}, []int64{10, 13, 11},
+			[]int64{10, 13, 1}, good(15), []int64{9, 11, 0}, []int64{10, 11, 5}, good(17), good(19))
+	case 17:
+		// the same requests on a connection with the default window: nothing ever waits
+		cfg = []int64{1, 4096, 0, 0}
+		ops = append(ops, good(1), []int64{9, 1, 10}, good(3), []int64{10, 3, 14}, []int64{9, 3, 1000}, good(5), good(7))
 	default:
 		if idx >= 2 && idx < 11 {
 			// each framer-level connection error once, with two streams active
@@ -599,11 +651,19 @@ func vServerHeadersGen(r *vRand, tier string, idx int) ([]int64, [][]int64) {
 			case x < 70 && len(open) > 0:
 				ops = append(ops, []int64{2, open[r.Intn(len(open))]})
 			case x < 85 && len(open) > 0:
-				ops = append(ops, []int64{3, open[r.Intn(len(open))]})
+				if r.Chance(45) {
+					ops = append(ops, []int64{9, open[r.Intn(len(open))], r.PickI64(0, 1, 10, 10, 100)})
+				} else {
+					ops = append(ops, []int64{3, open[r.Intn(len(open))]})
+				}
 			case x < 92 && len(open) > 0:
 				ops = append(ops, []int64{4, open[r.Intn(len(open))], vB(r.Bool())})
 			case x < 96 && len(open) > 0:
-				ops = append(ops, []int64{6, open[r.Intn(len(open))]})
+				if r.Chance(65) {
+					ops = append(ops, []int64{10, open[r.Intn(len(open))], r.PickI64(1, 4, 5, 6, 14, 15, 16, 105, 1000, 2147483647)})
+				} else {
+					ops = append(ops, []int64{6, open[r.Intn(len(open))]})
+				}
 			case x < 97 && r.Chance(30):
 				ops = append(ops, []int64{5, int64(r.Intn(9))})
 			default:
